@@ -8,7 +8,7 @@
 (* Level A is a relation on the returned spline r: it is NOT computed by   *)
 (* the specification (no linear solve); a spline satisfies it or not.      *)
 (***************************************************************************)
-EXTENDS Generator
+EXTENDS Generator, LinSolve
 
 \* what the entry point documents as admissible
 ArgsValid(x, y, order, bcs) ==
@@ -62,6 +62,41 @@ LinearInterpI(x, y) ==
   SplOn(x, 1, [i \in 1..(SupSize(x) - 1) |->
                  <<RDiv(RAdd(y[i], y[i + 1]), RTwo),
                    RDiv(RSub(y[i + 1], y[i]), RMul(RTwo, Half(x.g, x.s + i - 1)))>>])
+
+\* Level I for every order: the linear system as interpolate() assembles it
+\* (interpolation.h:198-318: first-node value row and FIRST boundary rows, per
+\* interior node two value rows and order-1 continuity rows, last-node value row
+\* and LAST boundary rows), solved exactly.  Result << >> = singular system.
+InterpI(x, y, order, bcs) ==
+  LET n == SupSize(x)
+      nc == order + 1
+      N == nc * (n - 1)
+      X(i) == x.g[x.s + i + 1]                                  \* x[i], 0-based
+      Zero == [k \in 1..N |-> RZero]
+      \* row with entries f(i) at columns base+i (0-based i in lo..order)
+      Row(base, lo, f(_)) == [k \in 1..N |-> IF k - 1 >= base + lo /\ k - 1 <= base + order THEN f(k - 1 - base) ELSE RZero]
+      PowRow(base, dx) == Row(base, 0, LAMBDA i : RPow(dx, i))
+      DerRow(base, dx, d, sg) == Row(base, d, LAMBDA i : RMul(FromInt(sg * Falling(i - d, d)), RPow(dx, i - d)))
+      dxF == RDiv(RSub(X(0), X(1)), RTwo)
+      dxL == RDiv(RSub(X(n - 1), X(n - 2)), RTwo)
+      firstRows == <<[r |-> PowRow(0, dxF), b |-> y[1]]>>
+                   \o SelectSeq([k \in DOMAIN bcs |-> IF bcs[k].node = 0 THEN [r |-> DerRow(0, dxF, bcs[k].d, 1), b |-> bcs[k].v] ELSE [r |-> Zero, b |-> RZero, skip |-> TRUE]],
+                                LAMBDA e : "skip" \notin DOMAIN e)
+      Interior(c) ==
+        LET dx1 == RDiv(RSub(X(c), X(c - 1)), RTwo)
+            dx2 == RDiv(RSub(X(c), X(c + 1)), RTwo)
+        IN <<[r |-> PowRow(nc * (c - 1), dx1), b |-> y[c + 1]], [r |-> PowRow(nc * c, dx2), b |-> y[c + 1]]>>
+           \o [d \in 1..(order - 1) |->
+                 [r |-> [k \in 1..N |-> RAdd(DerRow(nc * (c - 1), dx1, d, 1)[k], DerRow(nc * c, dx2, d, -1)[k])], b |-> RZero]]
+      RECURSIVE Inner(_)
+      Inner(c) == IF c + 1 >= n THEN <<>> ELSE Interior(c) \o Inner(c + 1)
+      lastRows == <<[r |-> PowRow(nc * (n - 2), dxL), b |-> y[n]]>>
+                  \o SelectSeq([k \in DOMAIN bcs |-> IF bcs[k].node = 1 THEN [r |-> DerRow(nc * (n - 2), dxL, bcs[k].d, 1), b |-> bcs[k].v] ELSE [r |-> Zero, b |-> RZero, skip |-> TRUE]],
+                               LAMBDA e : "skip" \notin DOMAIN e)
+      rows == firstRows \o Inner(1) \o lastRows
+      sol == IF Len(rows) # N THEN <<>> ELSE Solve([i \in 1..N |-> rows[i].r], [i \in 1..N |-> rows[i].b])
+  IN IF sol = <<>> THEN <<>>
+     ELSE SplOn(x, order, [j \in 1..(n - 1) |-> [k \in 1..nc |-> sol[nc * (j - 1) + k]]])
 
 \* the ISolver protocol the routine must follow: construct(size) -> writes
 \* inside the size -> solve() once -> reads inside the size
